@@ -65,7 +65,7 @@ ParserInvertsEncoder ==
                 s == ParseStrict(b)
                 l == ParseLenient(b)
             IN  /\ l.status = "ok" /\ l.content = content /\ l.consumed = Len(b)
-                /\ s.status = (IF SizeOK THEN "ok" ELSE "size_mismatch")
+                /\ s.status = "ok" /\ SizeMatches(s) = SizeOK
                 /\ s.content = content
                 /\ Len(l.blocks) = Len(blks)
                 /\ \A k \in 1 .. Len(blks) : l.blocks[k].size = Len(blks[k].data) /\ l.blocks[k].raw = blks[k].raw
